@@ -45,7 +45,9 @@ def gen_site(rng, name, del_ids, nworkers=None):
         if stitch:
             s.stitch.append(pid)
         # switch ports can carry delegations of their own: the two ends of a link may then belong to different delegation ids
-        delegable.append((pid, 'port'))
+        # (not the stitch ports: in a combined model only one of the models sharing a stitch port may speak for it)
+        if not stitch:
+            delegable.append((pid, 'port'))
         return pn, pid
     link_k = [0]
 
